@@ -384,6 +384,47 @@ pub fn run(cfg: &Config) -> i32 {
             }
         }
     });
+    // MT199 (free-format message used for rejects / returns of payments): the code word at the start of the
+    // first line of field 79 classifies; the same look-alikes as for field 72
+    let mut total = total;
+    {
+        let variants: Vec<(&str, &str, Option<bool>, Option<bool>)> = vec![
+            ("none", "REGARDING YOUR PAYMENT", Some(false), Some(false)),
+            ("/REJT/@79-first-line", "/REJT/AC01\nTEXT", Some(true), Some(false)),
+            ("/RETN/@79-first-line", "/RETN/AC04\nTEXT", Some(false), Some(true)),
+            ("/REJT/@79-second-line", "TEXT\n/REJT/AC01", None, Some(false)),
+            ("/RETN/@79-second-line", "TEXT\n/RETN/AC04", Some(false), None),
+            ("/REJTX/@79", "/REJTX/AC01", None, Some(false)),
+            ("/rejt/@79", "/rejt/ac01", None, Some(false)),
+            ("/RETNX/@79", "/RETNX/AC04", Some(false), None),
+            ("REJT-no-slashes@79", "REJT AC01", None, Some(false)),
+            ("/REJT/+/RETN/@79", "/REJT/AC01\n/RETN/AC04", Some(true), None),
+            ("/RETN/+/REJT/@79", "/RETN/AC04\n/REJT/AC01", None, Some(true)),
+        ];
+        let t199 = par_for(cfg, variants.len() as u64, |i, l| {
+            let (lab, f79, exp_rej, exp_ret) = &variants[i as usize];
+            let text = format!("{{1:F01BANKBEBBAXXX0000000000}}{{2:I199BANKDEFFXXXXN}}{{4:\n:20:REF1\n:21:REL1\n:79:{f79}\n-}}");
+            let case = Case { mt: "199".into(), f72: Some(f79.to_string()), mur: None, flag119: None, text: text.clone(), cov: None };
+            match guard(|| swift_mt_message::SwiftParser::parse::<swift_mt_message::messages::MT199>(&text)) {
+                Ok(Ok(m)) => {
+                    let (rj, rt) = (m.fields.is_reject_message(), m.fields.is_return_message());
+                    l.eval("MT199", &format!("reject={rj},return={rt}"), true, hash_bytes2("199", &text));
+                    if let Some(e) = exp_rej
+                        && *e != rj
+                    {
+                        v(l, "MT199", if *e { "reject-code-not-classified" } else { "classified-reject-without-code" }, lab, format!("MT199: is_reject_message={rj} with field 79 {:?}", f79), &case);
+                    }
+                    if let Some(e) = exp_ret
+                        && *e != rt
+                    {
+                        v(l, "MT199", if *e { "return-code-not-classified" } else { "classified-return-without-code" }, lab, format!("MT199: is_return_message={rt} with field 79 {:?}", f79), &case);
+                    }
+                }
+                _ => l.eval("MT199", "not-parseable", false, 0),
+            }
+        });
+        total.merge(t199);
+    }
     let mut rep = Report::default();
     rep.exhaustive = true;
     rep.rule = "exhaustive product of 20 field-72 variants (code words at line start, second line, mid-line, look-alikes, lower case, cover words) x 6 {108:} variants x 5 {119:} variants over real messages of MT103/202/205 (with and without cover sequence) and of each of the other 27 types, each through the typed predicates and the real parse plugin. Non-trivial = the message parsed and was classified; distinct = distinct message texts".into();
